@@ -167,6 +167,7 @@ func main() {
 	nSets := e.Pick(500, 5000)
 	for si := 0; si < nSets; si++ {
 		g := gen.New(e.BatchSeed()*86028121 + int64(si))
+		g.Lookalikes = si%2 == 1
 		kind := drv.Kinds[si%2]
 		withParent := si%4 >= 2
 		store := drv.MustMem()
